@@ -81,7 +81,7 @@ fn check_mul<G: Grp>(p: &PV, k: &[u8], form: u8) -> Outcome {
         acc.check(got.as_ref().ok() == Some(&exp), || format!("C04:{name}:mul"), || format!("P*k (form {}) k={:x}: got {:?} expected {}", f % 6, ki, got.as_ref().map(|b| hex(b)), hex(&exp)));
     }
     let expg = r.encode(&r.mul(&ki, &r.base()));
-    for f in 0..3u8 {
+    for f in 0..4u8 {
         let got = guard(|| G::mulgen(&ks, f).encode());
         acc.check(got.as_ref().ok() == Some(&expg), || format!("C04:{name}:mulgen"), || format!("mulgen (form {f}) k={:x}: got {:?} expected {}", ki, got.as_ref().map(|b| hex(b)), hex(&expg)));
     }
@@ -130,7 +130,7 @@ impl Property for C04 {
         "C04"
     }
     fn rule(&self) -> String {
-        "Mul cases: group + point value (generator, uniform element, special/chained representative) + scalar from the structured classes (uniform, 0/1/n-1/(n+-1)/2, 2^k+-1 and negations, small and unbalanced fractions a/b, 5-bit digit patterns 15/16/17/31, small); P*k in three operator forms, mulgen(k) in three forms against reference double-and-add on the canonical integer, through encodings. Sweep (exhaustive, deterministic): for every d = 1..31 and every bit position s = 0..bits, the scalars d*2^s and n - d*2^s through mulgen, BASE*k and the variable-time u*P + v*G routine - with 5-bit (and 4-bit) signed-digit recodings this selects every entry +-1..16 of every window of every precomputed generator table. Non-trivial: structured scalar (short, close to n, >= 20 trailing zeros, sparse) or non-generic point; every sweep case. distinct = distinct case hash.".into()
+        "Mul cases: group + point value (generator, uniform element, special/chained representative) + scalar from the structured classes (uniform, 0/1/n-1/(n+-1)/2, 2^k+-1 and negations, small and unbalanced fractions a/b, 5-bit digit patterns 15/16/17/31, small); P*k in three operator forms, mulgen(k) in four forms (mulgen, set_mulgen on a neutral receiver, BASE*k, set_mulgen on a receiver that already holds a point) against reference double-and-add on the canonical integer, through encodings. Sweep (exhaustive, deterministic): for every d = 1..31 and every bit position s = 0..bits, the scalars d*2^s and n - d*2^s through mulgen, BASE*k and the variable-time u*P + v*G routine - with 5-bit (and 4-bit) signed-digit recodings this selects every entry +-1..16 of every window of every precomputed generator table. Non-trivial: structured scalar (short, close to n, >= 20 trailing zeros, sparse) or non-generic point; every sweep case. distinct = distinct case hash.".into()
     }
     fn shard_size(&self) -> u64 {
         10
